@@ -223,6 +223,15 @@ impl Prop for C18 {
         let r2 = energy_performance(&back, &fback, e.k, e.area, e.lm);
         match (r1, r2) {
             (Ok(a), Ok(b)) => {
+                // the factor set kept in the result (with the derived cogeneration lines, source COGEN)
+                let rback: Factors = match a.wfactors.to_string().parse() {
+                    Ok(x) => x,
+                    Err(x) => fail!("factors_reparse", "the factors held by the result cannot be read back once written: {}", x),
+                };
+                same_factors(&a.wfactors, &rback)?;
+                if a.wfactors.wdata.iter().any(|x| x.source == cteepbd::types::Source::COGEN) {
+                    ctx.label("cogen_factor_lines_round_trip");
+                }
                 let lines = lines_from_components(&comps);
                 let ft = crate::model::FTable::from_factors(&f);
                 let mut sc = crate::tol::Scales::from_inputs(&lines, n, &ft, e.area as f64);
